@@ -24,6 +24,14 @@ pub enum PlanKind {
     Crash,
     /// read() returns 0 early: the file was cut short after it was opened.
     Eof,
+    /// The k-th status call (statx / fstat) on a tracked descriptor announces this size (`idx` counts
+    /// status calls, an index space of its own): the file grows or shrinks between stat and read.
+    StatSize(u64),
+    /// The k-th status call on a tracked descriptor fails with this errno.
+    StatErr(i32),
+    /// The simulated disk takes this many more bytes in all (`idx` ignored): the write that crosses the
+    /// limit is cut short and every later one fails with ENOSPC.
+    Quota(u64),
 }
 
 #[derive(Clone, Debug, PartialEq, Serialize, Deserialize)]
@@ -134,6 +142,7 @@ pub fn errno_name(e: i32) -> &'static str {
         24 => "EMFILE",
         28 => "ENOSPC",
         30 => "EROFS",
+        38 => "ENOSYS",
         122 => "EDQUOT",
         _ => "E?",
     }
@@ -148,6 +157,7 @@ pub const EMFILE: i32 = 24;
 pub const ENOSPC: i32 = 28;
 pub const EROFS: i32 = 30;
 pub const EDQUOT: i32 = 122;
+pub const ENOSYS: i32 = 38;
 
 static DISK_COUNTER: AtomicU64 = AtomicU64::new(0);
 
@@ -216,6 +226,9 @@ fn render_plan(plan: &[PlanEntry]) -> String {
             PlanKind::Err(errno) => s.push_str(&format!("{} err {}\n", e.idx, errno)),
             PlanKind::Crash => s.push_str(&format!("{} crash\n", e.idx)),
             PlanKind::Eof => s.push_str(&format!("{} eof\n", e.idx)),
+            PlanKind::StatSize(n) => s.push_str(&format!("{} statsize {}\n", e.idx, n)),
+            PlanKind::StatErr(errno) => s.push_str(&format!("{} staterr {}\n", e.idx, errno)),
+            PlanKind::Quota(n) => s.push_str(&format!("{} quota {}\n", e.idx, n)),
         }
     }
     s
